@@ -82,6 +82,7 @@ type PktRec struct {
 	VT    int64 // virtual ms
 	Index int
 	Size  int
+	Conn  int
 }
 
 func (c *Conn) Read(p []byte) (int, error) {
